@@ -216,6 +216,15 @@ ZOO = [
      {"key": "A", "meter": [2, 4], "entries": [_e("2", None)]},
      {"key": "A", "meter": [2, 4], "entries": [_e("4", [["B", 5]], "text"), _e("4", None)]},
      {"key": "A", "meter": [2, 4], "entries": []}],
+    # 6: bars that become equal to one another under the operations: bar 1 is bar 0 a major third up, bar 2 repeats bar 0
+    [{"key": "C", "meter": [4, 4], "entries": [_e("2", [["C", 4], ["E", 4], ["G", 4]], "nc"), _e("2", None)]},
+     {"key": "C", "meter": [4, 4], "entries": [_e("2", [["E", 4], ["G#", 4], ["B", 4]], "nc"), _e("2", None)]},
+     {"key": "C", "meter": [4, 4], "entries": [_e("2", [["C", 4], ["E", 4], ["G", 4]], "nc"), _e("2", None)]}],
+    # 7: four one-note bars a semitone apart (augmenting bar i makes it sound like bar i+1)
+    [{"key": "C", "meter": [4, 4], "entries": [_e("1", [["C", 4]], "note")]},
+     {"key": "C", "meter": [4, 4], "entries": [_e("1", [["C#", 4]], "note")]},
+     {"key": "C", "meter": [4, 4], "entries": [_e("1", [["D", 4]], "note")]},
+     {"key": "C", "meter": [4, 4], "entries": [_e("1", [["Eb", 4]], "note")]}],
 ]
 
 
@@ -602,7 +611,7 @@ def explore(ctx):
         depth = ctx.pick(3, 4)
         aset = ctx.pick("narrow", "narrow")
         # quick: the chord-only and the tuplet-value track (many notes, nothing structurally new) go one level less deep
-        depths = {i: (depth - 1 if (ctx.quick and i in (1, 3)) else depth) for i in range(len(ZOO))}
+        depths = {i: (depth - 1 if (ctx.quick and i in (1, 3, 6, 7)) else depth) for i in range(len(ZOO))}
         ctx.bound("history_depth", {str(i): d for i, d in depths.items()})
         ctx.bound("history_actions", {"set": aset, "targets": {str(i): action_targets(i, aset) for i in range(len(ZOO))}, "ops": bfs_ops()})
         for i in range(len(ZOO)):
